@@ -1008,18 +1008,11 @@ class SupportGenerator(CodeGenerator):
         line_pps: typing.List["nunavut._postprocessors.LinePostProcessor"],
     ) -> None:
         for line_pp in line_pps:
-            line_pp.reset()
+            line_pp.reset()  # no state (e.g. the empty line count) is carried over from the previous file
         with open(str(target), "w", encoding="utf-8") as target_file:
-            with open(str(resource), "r", encoding="utf-8") as resource_file:
-                for resource_line in resource_file:
-                    if len(resource_line) > 1 and resource_line[-2] == "\r":
-                        resource_line_tuple = (resource_line[0:-2], "\r\n")
-                    else:
-                        resource_line_tuple = (resource_line[0:-1], "\n")
-                    for line_pp in line_pps:
-                        resource_line_tuple = line_pp(resource_line_tuple)
-                    target_file.write(resource_line_tuple[0])
-                    target_file.write(resource_line_tuple[1])
+            # newline="": the lines keep the line endings they have in the resource; a last line without one is kept as it is.
+            with open(str(resource), "r", encoding="utf-8", newline="") as resource_file:
+                self._generate_with_line_buffer(target_file, resource_file, line_pps)
 
 
 # +---------------------------------------------------------------------------+
